@@ -244,6 +244,7 @@ class _Flattener(object):
         self.counter = 0
         self.inlined = []
         self.caller_names = set()
+        self.gen_locals = {}
 
     # -- resolution ------------------------------------------------------
     def target(self, call, stack, generator=False):
@@ -512,6 +513,14 @@ class _Flattener(object):
             st2.body = self.block(st.body, stack)
             st2.orelse = self.block(st.orelse, stack)
             return pre + [st2]
+        # `g = _generator_helper(..)` ... `for x in g:` with g bound once and used once: creating a generator runs nothing, so the
+        # call can be moved to the loop
+        if isinstance(st, ast.Assign) and len(st.targets) == 1 and isinstance(st.targets[0], ast.Name) and st.targets[0].id in self.gen_locals \
+                and st.value is self.gen_locals[st.targets[0].id]:
+            return []
+        if isinstance(st, ast.For) and isinstance(st.iter, ast.Name) and st.iter.id in self.gen_locals:
+            st = copy.copy(st)
+            st.iter = self.gen_locals[st.iter.id]
         if isinstance(st, ast.For) and isinstance(st.iter, ast.Call) and not st.orelse and not _leaves_loop(st.body):
             # `for x in _generator_helper(...)`: the helper's body with the loop body at every yield.  `list(gen(..))` / `tuple(..)`
             # materialise the items first; for what is done with each item (the view the rules take) the order of the two
@@ -564,6 +573,17 @@ def flatten(m, qualname, keep=(), depth=3):
     fn = m.fn(qualname)
     fl = _Flattener(m, qualname, keep, depth)
     fl.caller_names = _all_names(fn)
+    # locals bound exactly once to a call of a private generator helper and read exactly once, as the iterable of a for loop
+    stores, loads = {}, {}
+    for n in ast.walk(fn):
+        if isinstance(n, ast.Name):
+            (stores if isinstance(n.ctx, (ast.Store, ast.Del)) else loads).setdefault(n.id, []).append(n)
+    for a in ast.walk(fn):
+        if isinstance(a, ast.Assign) and len(a.targets) == 1 and isinstance(a.targets[0], ast.Name) and isinstance(a.value, ast.Call):
+            nm = a.targets[0].id
+            if len(stores.get(nm, [])) == 1 and len(loads.get(nm, [])) == 1 and fl.target(a.value, [fn.name], generator=True) is not None \
+                    and any(isinstance(lp, ast.For) and lp.iter is loads[nm][0] for lp in ast.walk(fn)):
+                fl.gen_locals[nm] = a.value
     f2 = copy.copy(fn)
     f2.body = fl.block(copy.deepcopy(fn.body), [fn.name])
     ast.fix_missing_locations(f2)
